@@ -905,7 +905,7 @@ func (vf *VerifyFunc) frameAllowed(st *State) (allowed map[string][]string, wild
 					continue
 				}
 				ev := &evaluator{st: st, vf: vf}
-				allowed[key] = append(allowed[key], ev.asRef(evalOld(x.Args[0])))
+				allowed[key] = append(allowed[key], ev.toSort(evalOld(x.Args[0]), specSort(g.Params[0])))
 			}
 			if x.Fun == "heap" {
 				if s, ok := x.Args[0].(EStr); ok {
@@ -940,6 +940,16 @@ func (vf *VerifyFunc) frameAllowed(st *State) (allowed map[string][]string, wild
 func (vf *VerifyFunc) frameGoal(st *State, k, cur string, allowed []string) string {
 	n0 := st.initialHeapName(k, 0)
 	st.declare(n0, st.eng.heapSort(k))
+	if strings.HasPrefix(k, "G:") {
+		if g, ok := vf.eng.cs.Ghosts[strings.TrimPrefix(k, "G:")]; ok && specSort(g.Params[0]) != SInt {
+			// ghost state keyed by a value (e.g. a path name): every key outside the modifies clause keeps its entry
+			var ex []string
+			for _, r := range allowed {
+				ex = append(ex, not(eq("fr_k", r)))
+			}
+			return "(forall ((fr_k " + specSort(g.Params[0]) + ")) (! (=> " + and(ex...) + " (= (select " + cur + " fr_k) (select " + sym(n0) + " fr_k))) :pattern ((select " + cur + " fr_k))))"
+		}
+	}
 	ex := []string{"(<= (obj_root fr_r) " + vf.entryFrontier + ")"}
 	for _, r := range allowed {
 		ex = append(ex, not(eq("fr_r", r)))
